@@ -60,7 +60,7 @@ Section Pint.
   Definition mk (f : field) (k x : node) : ynode + ymap :=
     match f with
     | FLabels | FAnn => inr (nym k x)
-    | _ => inl (nyn x (n_col k + 2))
+    | _ => inl (nyn x 1)
     end.
 
   Lemma slot_set_lines f s a b : slot f (set_lines s a b) = slot f s.
